@@ -168,7 +168,14 @@ def rule_r1(F, rep):
                             y = dict(rv["p"])
                             y["k"] = "copy"
                             stack.append(y)
-            okr = any(n.endswith("Iterator::rev") for n in names) and jpath
+            # the whole list is registered, reversed and nothing else: no adapter that drops, reorders or de-duplicates entries
+            # (a directory repeated further right must keep the priority of its right-most position)
+            reshaping = sorted(n for n in names if any(n.endswith("Iterator::" + a) or n.endswith("Iterator>::" + a) or ("::" + a) in n.rsplit("<", 1)[-1]
+                                                      for a in ("filter", "filter_map", "skip", "take", "step_by", "skip_while", "take_while",
+                                                                "dedup", "dedup_by_key", "sort", "sort_by", "sort_unstable", "retain")))
+            okr = any(n.endswith("Iterator::rev") for n in names) and jpath and not reshaping
+            if reshaping:
+                rep.note("jpath adapters: %s" % reshaping)
     rep.ob(R, "cli|jpath-reversed", okr)
     if not okr:
         rep.violation(R, "rsjsonnet::main_inner|jpath-order", "-J directories are not registered in reverse order (the right-most "
